@@ -318,3 +318,30 @@ func fieldNilCmp(info *types.Info, cond ast.Expr, field string, op token.Token) 
 	})
 	return found
 }
+
+// resolveLocal follows a local variable to the expression it was bound to by
+// its single definition (x := e), a few steps deep; other expressions are
+// returned as they are. It makes the shape rules indifferent to an intermediate
+// variable.
+func resolveLocal(f *Func, e ast.Expr) ast.Expr {
+	info := f.Info()
+	for depth := 0; depth < 4; depth++ {
+		id, ok := ast.Unparen(e).(*ast.Ident)
+		if !ok {
+			return e
+		}
+		v, ok := info.Uses[id].(*types.Var)
+		if !ok || v.IsField() {
+			return e
+		}
+		if _, isParam := paramIndex(f.Root(), v); isParam {
+			return e
+		}
+		rhs := singleDef(f, v)
+		if rhs == nil {
+			return e
+		}
+		e = rhs
+	}
+	return e
+}
